@@ -30,3 +30,6 @@ func Score(kind string, mode int, score uint64) uint64 { return score }
 
 // Forced reports no override without the verif build tag.
 func Forced(name string) (value, forced bool) { return false, false }
+
+// Override returns natural without the verif build tag.
+func Override(name string, natural uint32) uint32 { return natural }
